@@ -243,6 +243,51 @@ theorem percent_injective (a b : Bytes) (h : percentEncode a = percentEncode b) 
   rw [h, percent_roundtrip b] at this
   exact (Option.some.inj this).symm
 
+/-! ## the reference server's own status trailers (raw gRPC / gRPC-Web error responses) -/
+
+theorem status_trailers_read (code : Int) (msg : Bytes) (ds : List Detail)
+    (h : ds.all (fun d => defaultPrefixed d.url) = true) :
+    readStatusTrailers (statusTrailersOf code msg ds) = some { code := code, message := msg, details := ds } := by
+  cases ds with
+  | nil => simp [readStatusTrailers, statusTrailersOf, percent_roundtrip]
+  | cons d t =>
+    have := restore_details (d :: t) h
+    simp only [readStatusTrailers, statusTrailersOf, List.isEmpty_cons, Bool.false_eq_true, if_false, this]
+
+theorem status_trailers_preserve (code : Int) (msg : Bytes) (ds : List Detail)
+    (h : ds.all (fun d => defaultPrefixed d.url) = true) :
+    trailersPreserve code msg ds (statusTrailersOf code msg ds) = true := by
+  have hp := percent_printable msg
+  cases ds with
+  | nil =>
+    simp only [trailersPreserve, statusTrailersOf, percent_roundtrip, hp, List.isEmpty_nil, if_true, beq_self_eq_true,
+      Bool.and_self]
+  | cons d t =>
+    have hr := restore_details (d :: t) h
+    simp only [trailersPreserve, statusTrailersOf, percent_roundtrip, hp, List.isEmpty_cons, Bool.false_eq_true, if_false,
+      hr, beq_self_eq_true, Bool.and_self]
+
+/-- proto → Connect → status trailers (`grpcStatusTrailers`) → read back as a gRPC peer does:
+code, message and every detail are those of the error, for every message (also one with bytes
+that `grpc-message` must escape) and every list of default-prefixed details. -/
+theorem error_roundtrip_trailers (e : ProtoErr) (h : DefaultPrefixed e = true) :
+    readStatusTrailers (grpcStatusTrailers (protoToConnect e)) =
+      some { code := e.code, message := e.getMessage.toUTF8.toList, details := e.details } :=
+  status_trailers_read e.code _ e.details h
+
+/-- both carriers agree: the spec predicate the driver evaluates on the implementation's
+trailers holds of the model's, so a peer that ignores `grpc-status-details-bin` reads the same
+code and message as one that prefers it. -/
+theorem trailers_preserve (e : ProtoErr) (h : DefaultPrefixed e = true) :
+    trailersPreserve e.code e.getMessage.toUTF8.toList e.details (grpcStatusTrailers (protoToConnect e)) = true :=
+  status_trailers_preserve e.code _ e.details h
+
+/-- "100%" with one detail: `grpc-message` is escaped, the message inside the status is not -/
+example : statusTrailersOf 5 [0x31, 0x30, 0x30, 0x25] [⟨"type.googleapis.com/a.B".toList, [1]⟩] =
+    { status := 5, message := [0x31, 0x30, 0x30, 0x25, 0x32, 0x35],
+      bin := some { code := 5, message := [0x31, 0x30, 0x30, 0x25], details := [⟨"type.googleapis.com/a.B".toList, [1]⟩] } } := by
+  decide
+
 /-! ## strict codecs (relative to the underlying marshaller) -/
 
 theorem strict_codec_roundtrip {M} (c : Codec M) (h : c.RoundTrips) (m : M) (d : Bytes)
